@@ -251,6 +251,21 @@ func c13Run(srv *svc.Server, sc c13Scenario, r *core.Rand) (viol [][2]string, in
 			t.Write(t.Frame(0x0002, uint16(10+i), nil))
 		}
 		closeIt()
+	case "writer-held-long":
+		// the writer sits in ONE write callback for 3.6 s — longer than the commands' timeout plus any grace an implementation may
+		// add on the caller's side — with commands queued behind it; then it resumes and the peer goes away
+		if !joined() {
+			t.Close()
+			return nil, true, false, nil
+		}
+		svc.SlowWrite.Store(t.Phone, 3600*time.Millisecond)
+		t.Write(t.Frame(0x0002, 5, nil))
+		time.Sleep(20 * time.Millisecond)
+		svc.SlowWrite.Delete(t.Phone)
+		launch(sc.K, 0)
+		time.Sleep(3800 * time.Millisecond)
+		closeIt()
+		time.Sleep(300 * time.Millisecond)
 	case "at-timer-expiry":
 		if !joined() {
 			t.Close()
@@ -373,6 +388,18 @@ func c13Worker(c *core.Collector, x *Ctx) {
 			if strings.HasPrefix(v[0], "noresult") || strings.HasPrefix(v[0], "stranded") {
 				c.Violate("stranded|SendActiveMessage did not return within timeout + slack|at-the-serial-wrap", v[1], sc)
 			}
+		}
+	}
+	if x.Batch == 0 {
+		sc := c13Scenario{Point: "writer-held-long", K: 3, TimeoutMs: 100, RST: true, Key: "1900777"}
+		viol, incon, _, res := c13Run(srv, sc, core.NewRand(c.Seed, "c13held", 0))
+		c.Evals(int64(len(res)))
+		c.Count("calls_behind_a_writer_held_for_3_6_s", int64(len(res)))
+		if incon {
+			c.Inconclusive()
+		}
+		for _, v := range viol {
+			c.Violate(v[0], v[1], sc)
 		}
 	}
 	per := c.N(100, 160)
